@@ -15,13 +15,6 @@ namespace TP.C04
 
 open TP
 
-instance : DecidableEq (Except CheckedErr Bytes) := fun a b =>
-  match a, b with
-  | .ok x, .ok y => if h : x = y then isTrue (by rw [h]) else isFalse (by intro h'; cases h'; exact h rfl)
-  | .error x, .error y => if h : x = y then isTrue (by rw [h]) else isFalse (by intro h'; cases h'; exact h rfl)
-  | .ok _, .error _ => isFalse (by intro h; cases h)
-  | .error _, .ok _ => isFalse (by intro h; cases h)
-
 def normals : List Comp → Nat
   | [] => 0
   | .normal _ :: r => normals r + 1
